@@ -8,7 +8,7 @@ type HTML struct {
 	MsgExtension
 	XMLName xml.Name `xml:"http://jabber.org/protocol/xhtml-im html"`
 	Body    HTMLBody
-	Lang    string `xml:"xml:lang,attr,omitempty"`
+	Lang    string `xml:"http://www.w3.org/XML/1998/namespace lang,attr,omitempty"`
 }
 
 type HTMLBody struct {
